@@ -14,25 +14,39 @@ EXTENDS ScriptGen, Splitter, TLC, Json
 CONSTANTS MaxLen,     \* hard bound on script length (emission runs; a big number with VIEW)
           SoftLen,    \* from this length on only closing moves are taken (scripts end well-formed)
           MinLen,     \* Stop only at or beyond this length
-          Emit        \* TRUE: print each finished script (S->C channel)
+          Emit,       \* TRUE: print each finished script (S->C channel)
+          ResetComplete  \* FALSE: mutant whose _reset() forgets one flag (vacuity guard for FreshAgrees)
 
-VARIABLES stk, ss, d, bad, phase, hist, curAllWs, refSig
-vars == <<stk, ss, d, bad, phase, hist, curAllWs, refSig>>
+VARIABLES stk, ss, d, bad, phase, hist, curAllWs, refSig, fresh
+vars == <<stk, ss, d, bad, phase, hist, curAllWs, refSig, fresh>>
+\*  fresh   = a Splitter started from scratch at the beginning of the current statement
+\*            (what split(piece) does, C04): it must behave exactly like the running one
 
 \*  d       = (#statements the splitter has yielded) - (#final semicolons seen)
 \*  refSig  = a significant token has been seen since the last final `;`
 \*  bad     = "" or the name of the clause violated by the last token
 
 Init == /\ stk = <<"T0">> /\ ss = Reset /\ d = 0 /\ bad = "" /\ phase = "run"
-        /\ hist = <<>> /\ curAllWs = TRUE /\ refSig = FALSE
+        /\ hist = <<>> /\ curAllWs = TRUE /\ refSig = FALSE /\ fresh = Reset
 
 Emitx(m) ==
     LET k  == m.t.k
-        f  == FeedStep(k, ss)
+        f0 == FeedStep(k, ss)
+        \* the running splitter's reset, possibly incomplete (mutant)
+        f  == IF f0.flush /\ ~ResetComplete
+                THEN [flush |-> TRUE,
+                      s |-> LET s1 == [Reset EXCEPT !.isCreate = ss.isCreate]
+                                ch == Change(k, s1)
+                                l2 == s1.level + ch.d
+                            IN [ch.s EXCEPT !.level = l2,
+                                            !.consumeWs = ((l2 <= 0 /\ k = "semi") \/ k = "go")]]
+                ELSE f0
+        g  == FeedStep(k, IF f0.flush THEN Reset ELSE fresh)
         d1 == IF f.flush THEN d + 1 ELSE d            \* splitter yielded before appending k
         d2 == IF m.fin THEN d1 - 1 ELSE d1            \* reference closes a statement after k
     IN /\ stk' = m.st
        /\ ss' = f.s
+       /\ fresh' = g.s
        /\ d' = d2
        /\ bad' = IF IsSignificant(k) /\ d1 > 0 THEN "split-at-inner-position"
                  ELSE IF IsSignificant(k) /\ d1 < 0 THEN "missed-split"
@@ -57,7 +71,7 @@ Stop == /\ phase = "run" /\ bad = "" /\ CanStop(stk) /\ Len(hist) >= MinLen
                      ELSE IF ~refPending /\ d3 > 1 THEN "extra-statement"
                      ELSE ""
               \* (~refPending /\ d3 = 1: a comment-only tail becomes its own piece - tolerated)
-        /\ UNCHANGED <<stk, ss, d, hist, curAllWs, refSig>>
+        /\ UNCHANGED <<stk, ss, d, hist, curAllWs, refSig, fresh>>
 
 Next == Step \/ Stop
 Spec == Init /\ [][Next]_vars
@@ -65,12 +79,23 @@ Spec == Init /\ [][Next]_vars
 \* ---- properties ----------------------------------------------------------
 Agree == bad = ""
 
-View == <<stk, ss, d, bad, phase, curAllWs, refSig>>
+\* C04, design level: re-splitting a piece is splitting from a fresh state
+FreshAgrees == fresh = ss
+
+View == <<stk, ss, d, bad, phase, curAllWs, refSig, fresh>>
 
 Bound == d \in -2..2 /\ ss.level \in -3..(MaxDepth + 2) /\ ss.beginDepth <= MaxDepth + 1 /\ ss.inCase <= MaxDepth + 1
 
 PrintDone == (Emit /\ phase = "done") =>
                PrintT("@@" \o ToJson([hist |-> hist, bad |-> bad]))
+
+\* state cover / transition cover of the lock-step product graph (S->C channel): under VIEW,
+\* TLC reaches every distinct abstract state once, by a shortest script; that script, completed
+\* by closing moves, is printed.  As ACTION_CONSTRAINT the same is printed for every transition.
+CoverRec(h, st) == [hist |-> [i \in 1..Len(h) |-> [k |-> h[i].k, lab |-> h[i].lab, fin |-> h[i].fin]] \o Closure(st),
+                    bad |-> ""]
+PrintStateCover == (phase = "run" /\ bad = "") => PrintT("@@" \o ToJson(CoverRec(hist, stk)))
+PrintTransCover == (phase' = "run" /\ bad' = "") => PrintT("@@" \o ToJson(CoverRec(hist', stk')))
 
 \* design-level counterexamples are *collected*, not stopped at: a bad state is terminal
 \* (Step/Stop need bad = ""), each one is printed with its script
